@@ -48,9 +48,23 @@ var c12typed = []func() any{
 	func() any { return map[string]string{"a": "x"} },
 	func() any { return []string{"aa", "b"} },
 	func() any { return []int{1, 2, 2} },
+	// unsorted, with and without duplicates (an in-place sort or compaction shows)
+	func() any { return []string{"b", "aa", "b", ""} },
+	func() any { return []string{"z", "y", "x"} },
+	func() any { return []int{3, 1, 2, 1} },
+	func() any { return []float64{2.5, -1, 2.5} },
+	func() any { return []any{"b", "a", 2.0, 1.0, "b"} },
+	func() any { return [][]string{{"b", "a"}, {"b", "a"}} },
+	func() any { return map[string][]string{"b": {"z", "a", "z"}, "a": {"y", "x"}} },
+	func() any { return c12struct{A: 3, B: []string{"z", "b", "a"}, N: map[string]any{"x": []string{"q", "p"}}} },
 }
 
 var c12extraAtoms = []string{
+	`{"uniqueItems":true}`,
+	`{"items":{"uniqueItems":true}}`,
+	`{"properties":{"b":{"uniqueItems":true,"maxItems":2},"a":{"uniqueItems":true}},"additionalProperties":{"uniqueItems":true}}`,
+	`{"enum":[["z","y","x"],["a","b"]]}`,
+	`{"items":{"enum":["a","b","z"]},"minItems":1}`,
 	`{"properties":{"a":{"default":1}}}`,
 	`{"properties":{"a":{"type":"integer","default":1},"b":{"default":{"x":[1]}}},"required":["a"]}`,
 	`{"items":{"properties":{"n":{"default":[1,2]}}}}`,
